@@ -33,6 +33,10 @@ CHECKS = {
    technique="deterministic simulation with fault injection: 2-4 concurrent requests between the real endpoint and a reference peer, stream-scoped faults (RESET at a drawn byte offset, STOP_SENDING, malformed message, oversized section, FIN before HEADERS) on a drawn subset, all task/delivery interleavings drawn; oracle: per-request history vs. the generated plan, absence of close(), driver results, echo responses parsed from the wire by the reference codecs",
    text="The real h3 server (echo application) or client (concurrent split requests) handles 2-4 requests against a reference peer. A drawn subset receives exactly one stream-scoped fault; what the application then does with the faulty handle (drop, finish, retry a send) is drawn. Judged at exact quiescence before teardown: the faulty request reports a stream-level error with the appropriate code (remote-terminate with the peer's code, H3_MESSAGE_ERROR with reset+stop observed by the peer, header-too-big with a 431 on the wire, H3_REQUEST_INCOMPLETE), the connection is not closed, the driver reports no error, and every healthy request delivers exactly its own headers, body bytes and trailers and its echo response is complete and correct on the wire. Sampling, not proof.",
    note="Trusted: checks/c07.rs plans and judges, refs codecs, SimQuic, simexec. Client role: wire codes of stop_sending after a malformed/oversized response are not judged; a STOP_SENDING arriving after h3 finished sending may go unnoticed; the peer only stops streams that already exist."),
+ "C08": dict(level="exploration", engine="E1", design_ref="DESIGN.md §5 C08",
+   technique="deterministic simulation: seeded search over histories interleaving request arrivals (in and out of stream-id order), shutdown(n) calls at drawn moments and request completions on a real h3 server, and over received GOAWAY id sequences on a real h3 client; invariants over the recorded sequential history and the GOAWAY frames parsed from the wire by the reference codec",
+   text="Server side: a real h3 server (accept / shutdown(n) loop built on the poll API accept() is made of, echo handlers) receives 1-6 requests whose arrival order is drawn (SimQuic may surface stream 8 before 4) while shutdown(n), n in 0..3, is called 0-3 times at drawn moments. Invariants over the accept task's sequential history and the control stream parsed by the reference codec: GOAWAY ids never increase and are request stream ids; when a GOAWAY(x) is written every stream already handed out has id < x; no stream with id >= an already sent GOAWAY id is handed out; handed-out streams are never reset with H3_REQUEST_REJECTED and are served to completion; rejected streams are reset and stop-sent with H3_REQUEST_REJECTED and lie at or above the last id sent; no arrived stream is ignored. Client side: GOAWAY id sequences (decreasing, equal, increasing, non-request ids, all varint forms): increasing or non-request id => H3_ID_ERROR as driver result and close code; otherwise every send_request begun after the driver processed the GOAWAY is refused as remote-closing and opens no stream. Sampling, not proof.",
+   note="Trusted: checks/c08.rs invariants, refs codecs, SimQuic, simexec. accept() is spelled out with poll_accept_request_stream/create_resolver so that shutdown(n) can be interleaved without cancelling a future inside an internal write (accept() is not documented as cancel-safe; see DESIGN §7). Requests racing with the delivery of a GOAWAY are unconstrained."),
  "C14": dict(level="exploration", engine="E1", design_ref="DESIGN.md §5 C14",
    technique="deterministic simulation: seeded search over generated API-call programs, builder configurations and per-call write-acceptance/pend patterns of the transport; history check of the complete per-stream byte logs by a reference RFC 9114 parser",
    text="Generated programs (1-4 exchanges in both roles, empty and multi-chunk buffers, trailers, streams abandoned mid-body, split halves, server shutdown(n) and client shutdown at drawn moments, drawn builder options) run on real h3 endpoints over SimQuic, which accepts writes down to one byte at a time, splits frame headers, pends and withholds stream credit. Afterwards every byte either endpoint wrote on every stream is parsed with the reference codecs: legal uni stream types, SETTINGS first and only allowed frames on the control stream (never finished/reset), only complete HEADERS/DATA/reserved frames in legal order on request streams, length fields consistent, reserved identifiers of the 0x1f*N+0x21 form, no HTTP/2 types or settings, GOAWAY ids non-increasing, DATA payloads concatenating to exactly what send_data was given, HEADERS decoding to what was submitted, and no misuse of the transport traits (overlapping send_data). Sampling, not proof.",
